@@ -157,8 +157,16 @@ func weeksTour(res *core.Result, r *core.RNG) (*sim, error) {
 	w.SnapHop()
 	w.SetNow(5300)
 	s.send(d0, 5300, 321)
-	s.impactRound(nil)
-	s.rotateTick() // second rotation
+	// second rotation -- it happens while the impact job is between its listing and its first write:
+	// the rates it was given must land at their own timeslots of the rotated window (or nowhere)
+	rotated := false
+	s.impactRound(func() {
+		if !rotated {
+			rotated = true
+			s.rotateTick()
+		}
+	})
+	s.rotateTick()
 	s.stats("archived", true)
 	s.stats("archived", false)
 	s.restart(w.Now)
